@@ -168,9 +168,15 @@ def roll_setup(name, year, rolls, month=0):
     return chain, start, end
 
 
-def run_roll(name, year, rolls, stride, phase, script, spread, threshold, calendar_days, month=0, fractional=True):
+def run_roll(name, year, rolls, stride, phase, script, spread, threshold, calendar_days, month=0, fractional=True, late=False):
     chain, start, end = roll_setup(name, year, rolls, month)
     days_ = bdays(start, end, calendar_days)[phase::stride]
+    # `late`: decisions are taken at 23:30 of the previous day with a latency of one hour, and every contract is re-quoted at
+    # 00:15 - inside the latency window - so the execution clock can be PAST a last-trading instant (midnight) that the
+    # decision time precedes: the chain must be resolved at execution time
+    exec_shift = timedelta(minutes=45) if late else timedelta(0)
+    if late:
+        days_ = [d - timedelta(minutes=30) for d in days_]
     cs = chain.contracts
     mult = cs[0].multiplier
     msgs = []
@@ -181,8 +187,8 @@ def run_roll(name, year, rolls, stride, phase, script, spread, threshold, calend
         if month and ci - month >= 0:
             # with a month offset the contract stops being the resolved one when the FRONT contract rolls
             ltd = as_dt(cs[ci - month].last_trading_date)
-        if days_[0] < ltd <= days_[-1]:
-            inside = [i for i, g in enumerate(days_) if ltd <= g < exp and i + 1 < len(days_)]
+        if days_[0] + exec_shift < ltd <= days_[-1] + exec_shift:
+            inside = [i for i, g in enumerate(days_) if ltd <= g + exec_shift < exp and i + 1 < len(days_)]
             if not inside:
                 return None, 0   # grid outside the quantifier's domain for this class
     base = {"ES": 3000.0, "NK": 20000.0, "VX": 20.0}.get(name, 120.0)
@@ -194,10 +200,15 @@ def run_roll(name, year, rolls, stride, phase, script, spread, threshold, calend
                 mid = base * (1 + 0.002 * i + 0.01 * j)
                 px[(c.symbol, i)] = (mid - spread * base / 2, mid + spread * base / 2)
                 evs.append(EventNBBO(g, c, mid - spread * base / 2, mid + spread * base / 2))
+            if late and g + exec_shift < as_dt(c.expiry):
+                mid2 = base * (1 + 0.002 * i + 0.01 * j) * 1.001
+                px[(c.symbol, i)] = (mid2 - spread * base / 2, mid2 + spread * base / 2)
+                evs.append(EventNBBO(g + exec_shift, c, mid2 - spread * base / 2, mid2 + spread * base / 2))
     reset_clock()
     tr = Transmitter(list(days_))
     tr.add_events(evs)
-    env = TradingEnv(BoxPortfolio([chain], -2.0, 2.0, margin=threshold, fractional=fractional), transmitter=tr, initial_cash=1e7)
+    env = TradingEnv(BoxPortfolio([chain], -2.0, 2.0, margin=threshold, fractional=fractional), transmitter=tr, initial_cash=1e7,
+                     latency=3600 if late else 0)
     try:
         env.reset()
     except Exception as e:
@@ -210,7 +221,7 @@ def run_roll(name, year, rolls, stride, phase, script, spread, threshold, calend
         kind = ACTION_KINDS[script[(k - 1) % len(script)]]
         # "small": a position worth less than the 5% threshold, reached by cutting a larger one
         w = {"+w": w0, "-w": -w0, "0": 0.0, "w+": w0 + 0.02, "small": 0.03, "-small": -0.03}[kind]
-        D = days_[k - 1]
+        D = days_[k - 1] + exec_shift      # the simulation time at which the execution takes place
         lead = ref_lead(cs, D, month)
         try:
             o, r, done, info = env.step(np.array([w]))
@@ -269,6 +280,8 @@ def roll_cases(tier):
                                 if name == "ES" and stride in (1, 3) and spread and threshold == 0.0:
                                     out.append((name, year, rolls, stride, phase, script, spread, threshold, calendar_days, 1))
                                     out.append((name, year, rolls, stride, phase, script, spread, threshold, calendar_days, 0, False))
+                                if name == "ES" and stride in (1, 2) and spread and threshold == 0.0:
+                                    out.append((name, year, rolls, stride, phase, script, spread, threshold, calendar_days, 0, True, True))
     return out
 
 
@@ -328,7 +341,7 @@ def replay(case, **kw):
         msgs, _ = check_lead(case["cls"], datetime(case["year"], 1, 1), datetime(case["year"] + case["span"] - 1, 12, 31), case["offset"])
         return msgs
     c = case["case"]
-    msgs, _ = run_roll(c[0], c[1], c[2], c[3], c[4], tuple(c[5]), c[6], c[7], c[8], c[9] if len(c) > 9 else 0, c[10] if len(c) > 10 else True)
+    msgs, _ = run_roll(c[0], c[1], c[2], c[3], c[4], tuple(c[5]), c[6], c[7], c[8], c[9] if len(c) > 9 else 0, c[10] if len(c) > 10 else True, c[11] if len(c) > 11 else False)
     return msgs or []
 
 
